@@ -1657,13 +1657,16 @@ package gohlslib
 // error rather than leaving the other tracks waiting for a time origin), and is then joined exactly once;
 // the end-of-stream marker never touches the reader
 //@ func clientStreamProcessorMPEGTS.processSegment
-//@   props C13 C20
+//@   props C09 C10 C13 C20
 //@   nosafety
 //@   noframe
 //@   nocallpre
 //@   requires ctx != nil
 //@   modifies *
 //@   loop 1 invariant calls("clientStreamProcessorMPEGTS.joinTrackProcessors") == 0 && seg != nil
+// C09 / C10: every segment is demuxed from a fresh per-segment state, so that its own EXT-X-PROGRAM-DATE-TIME is bound
+// (to the first unit of the leading track found in it) and its own leading-track data is looked for
+//@   loop 1 invariant calls("mpegts.Reader.Read") == 0 ==> (p.curSegment == seg && !p.leadingTrackFound && !p.dateTimeProcessed)
 //@   ensures seg == nil ==> (result != nil && calls("mpegts.Reader.Read") == 0 && calls("clientStreamProcessorMPEGTS.joinTrackProcessors") == 0)
 //@   ensures (seg != nil && result == nil) ==> (p.leadingTrackFound && calls("clientStreamProcessorMPEGTS.joinTrackProcessors") == 1 && calls("mpegts.Reader.Read") >= 1)
 //@   reachable seg != nil && result == nil
